@@ -45,6 +45,18 @@ def download_scenario(rng, plens, seed, outgoing):
         if r < 0.18:
             ev.append(ev_msg(KEEPALIVE))
             continue
+        if r < 0.24 and steps > 1:
+            # another connection completes the very piece this one is fetching (end game): the manager broadcasts SendHave,
+            # the task cancels its outstanding requests and reports PieceCancel; the manager assigns another piece (whose
+            # requests must tile it from the start and keep flowing) or nothing
+            if order and rng.random() < 0.8:
+                j = order.pop()
+                ev.append(ev_bhave(sim.idx, cancel="REQ:%d:%d" % (j, plens[j])))
+                sim.assign(j)
+                continue
+            ev.append(ev_bhave(sim.idx, cancel=rng.choice(["IGN", "NOTINT"])))
+            sim.idx = None
+            break
         if r < 0.28 and steps > 1:
             # the peer chokes us in the middle of the piece (dropping our pending requests) and unchokes again; the
             # manager assigns the same piece again or another one: the requests must tile the new assignment afresh
